@@ -139,6 +139,7 @@ def ring(E, data):
 @contract('http_server.WebSocketFrame.readDataHeader', props=['C18'])
 class _:
     """reads back what serializeDataHeader writes, for the length class announced in the header"""
+    cvc5_first = ['readDataHeader/ensures/consumes-exactly-the-data-header']       # one path: z3 unknown after 30 s, cvc5 seconds
     def setup(E):
         f = make_frame(E, 'f')
         E.ghost('f', f)
